@@ -25,6 +25,12 @@ CHECKS = {
    text="Honest networks plus a raw-QUIC impostor replaying certificates; concurrency of dials and loss bursts are generated. Oracle is one-directional where the statement is (Ok => ...), Err always allowed under loss. Exploration.",
    note="Trusted: fabric + paused clock, rustls/quinn. Self-dials excluded by construction (counted).",
    design="§4 C03"),
+ "C06": dict(
+   engine="simnet+proptest+libfuzzer",
+   technique="property-based testing with a hostile-peer model on a simulated network: generated scripts of malformed/truncated/oversized streams, stream-level misbehaviour, hostile responses and abrupt closes by a raw QUIC endpoint, interleaved with honest traffic; oracle = no panic, network alive, honest and well-formed RPCs return exactly F(request); in-process fuzz target for the per-stream path in the thorough tier",
+   text="The adversary holds a valid identity and speaks raw QUIC, so every byte and stream operation is its choice; honest traffic runs alongside and is checked byte for byte. Exploration of scripts up to 25 actions.",
+   note="Trusted: fabric + paused clock. Resource exhaustion is outside the statement. The recorder caps response sizes a garbled control block can request (harness self-protection).",
+   design="§4 C06"),
  "C07": dict(
    engine="proptest+libfuzzer",
    technique="property-based testing: round-trip + differential against a hand-written reference codec, exhaustive enumeration of small sub-spaces; coverage-guided fuzzing of the decoders in the thorough tier",
